@@ -266,9 +266,10 @@ def scenario_complex(rng, nodes, exact_vals):
             lines.append("put %s %d %d" % (ctok(sign * complex(0.0, m)), i, k) if rng.random() < 0.5 else
                          "put %s %d %d" % (ctok(sign * complex(0.0, m)), k, i))
         lines.append("addto %s %d %d" % (ctok(sign * complex(0.0, 3 * tot + 0.5)), k, k))
+    zero_rhs = rng.random() < 0.06        # no excitation at all: the solution is the zero vector (not NaN)
     for i in range(n):
         v = complex(dy(rng), dy(rng)) if exact_vals else complex(rng.uniform(-5, 5), rng.uniform(-5, 5))
-        lines.append("setb %d %s" % (i, ctok(v)))
+        lines.append("setb %d %s" % (i, ctok(0j if zero_rhs else v)))
     lines.append("dump")
     free = list(range(nodes))
     rng.shuffle(free)
@@ -278,7 +279,7 @@ def scenario_complex(rng, nodes, exact_vals):
         if r < 0.4 and len(free) >= 1:
             i = free.pop()
             x = complex(dy(rng), dy(rng)) if exact_vals else complex(rng.uniform(-3, 3), rng.uniform(-3, 3))
-            cons.append(("setvalue", i, x))
+            cons.append(("setvalue", i, 0j if zero_rhs else x))
         elif len(free) >= 2:
             i, j = free.pop(), free.pop()
             cons.append(("periodic" if r < 0.7 else "antiperiodic", i, j))
@@ -306,7 +307,7 @@ def scenario_complex(rng, nodes, exact_vals):
     if flag:
         lines.append("setv " + " ".join(ctok(complex(rng.uniform(-1, 1), rng.uniform(-1, 1))) for _ in range(n)))
     lines.append("solve %d %s %s %d" % (1 if flag else 0, d2tok(PREC), d2tok(LAMBDA), 60 * n + 400))
-    return lines, dict(n=n, nodes=nodes, circuits=ncirc, hint=hint, bw=bw, cons=cons, warm=flag, sign=sign)
+    return lines, dict(n=n, nodes=nodes, circuits=ncirc, hint=hint, bw=bw, cons=cons, warm=flag, sign=sign, zero_rhs=zero_rhs)
 
 
 def pieces(reply):
@@ -399,6 +400,7 @@ def complex_part(ck, build, mx, stats):
         cst["systems"] += 1
         cst["circuits"] += meta["circuits"]
         cst["warm"] += int(meta["warm"])
+        cst["zero_rhs"] = cst.get("zero_rhs", 0) + int(meta["zero_rhs"])
         cst["hints"]["zero" if meta["hint"] == 0 else "band"] += 1
         cst["divisions"] += 4
         for c in meta["cons"]:
@@ -449,6 +451,10 @@ def complex_part(ck, build, mx, stats):
             continue
         vt = [tok2d(t_) for t_ in srep if len(t_) == 17 and t_[0] == "x"]
         V = np.array([complex(vt[2 * i], vt[2 * i + 1]) for i in range(meta["n"])])
+        if not np.all(np.isfinite(V)):
+            ck.violation("solve-nonfinite:complex", "PBCGSolveMod returned a vector that is not finite (n=%d, zero right-hand side: %s)" % (meta["n"], meta["zero_rhs"]),
+                         dict(engine="csparse", ops=lines))
+            continue
         ref, cond = constrained_reference(A0, b0.astype(complex), meta["cons"])
         res = np.linalg.norm(b1 - A1 @ V) / max(np.linalg.norm(b1), 1e-300)
         err = np.linalg.norm(V - ref) / max(np.linalg.norm(ref), 1e-300)
